@@ -53,7 +53,7 @@ func C04(c *core.Ctx) {
 			return keep
 		})
 	}
-	ruleMultiSel(c, ruleSet("A-REQ", "A-NOEXTRA", "A-MAP"), 2, "differing only in required", "pure allOf composition")
+	ruleMultiSel(c, ruleSet("A-REQ", "A-NOEXTRA", "A-MAP"), 3, "differing only in required", "pure allOf composition", "recursive through #")
 	// the families start from the schema MODEL; a document reaches that model through the decoders: a type list arrives as written
 	// (nullable objects in both orders keep their struct and so their presence checks), and both spellings of a one-element list agree
 	ruleTypeForm(c)
